@@ -117,6 +117,8 @@ var c04Inputs = []string{
 	// a name bound nowhere when the function first runs (the error caught), bound when it runs again
 	"func ou(flag) { if flag { yy = 1 }; func inn() { catch(yy).err }; inn() }; println(ou(false), ou(true), ou(false))",
 	"func lk() { catch(zq).err }; println(lk())", "zq = 1; println(lk())", "del(zq); println(lk())",
+	// a global constant rebound to a value that is "equal" but not the same (the rebinding is allowed): -0.0 for 0.0, [1.0] for [1]
+	"ZZ = 0.0; func rz() { 1 / ZZ }; println(rz())", "ZZ = -0.0; println(rz(), 1 / ZZ)", "AA = [1]; func ra() { AA[0] / 2 }; println(ra())", "AA = [1.0]; println(ra(), AA[0] / 2)",
 	// functions made by another interpreter state: same text, different globals
 	"ua = unjson(\"N=1; ()=>N\"); ub = unjson(\"N=2; ()=>N\"); println(ua(), ub(), ua())",
 }
